@@ -179,7 +179,9 @@ func (e *stubEnv) Connect(name string) (cli, srv *simnet.Conn) {
 
 // serverCaps returns the capability set variants used by the raw-peer checks.
 func serverCaps(variant int) imap.CapSet {
-	switch variant % 4 {
+	switch variant % 5 {
+	case 4:
+		return imap.CapSet{imap.CapIMAP4rev1: {}, imap.CapUIDPlus: {}}
 	case 0:
 		return imap.CapSet{imap.CapIMAP4rev1: {}}
 	case 1:
